@@ -77,7 +77,8 @@ macro_rules! block_enc {
     ($rng:expr, $name:expr, $ty:ty, $bs:expr, $ivl:expr, $call:ident, $cfb:expr) => {{
         let key = $rng.bytes(16);
         let iv = $rng.bytes($ivl);
-        let nblk = $rng.below(3);
+        // mostly 0..2 blocks; now and then many (whatever an object keeps only after a batch, a window wrap, …)
+        let nblk = if $rng.below(4) == 0 { $rng.below(70) } else { $rng.below(3) };
         let data = $rng.bytes(nblk * $bs);
         let nmore = $rng.below(3);
         let more = $rng.bytes(nmore * $bs);
@@ -202,7 +203,7 @@ macro_rules! buf_obj {
     ($rng:expr, $name:expr, $ty:ty, $bs:expr, $call:ident) => {{
         let key = $rng.bytes(16);
         let iv = $rng.bytes($bs);
-        let n = $rng.below(3 * $bs);
+        let n = if $rng.below(4) == 0 { $rng.below(70 * $bs) } else { $rng.below(3 * $bs) };
         let obj = <$ty as KeyIvInit>::new(key.as_slice().try_into().unwrap(), iv.as_slice().try_into().unwrap());
         let steps = $rng.below(3);
         let lens: Vec<usize> = (0..steps)
